@@ -79,6 +79,14 @@ func cmdVerify(args []string) {
 		results = append(results, r)
 		all = append(all, r.Obls...)
 	}
+	for _, lem := range eng.cs.Lemmas {
+		key := pkgShort(lem.PkgPath) + ".lemma." + lem.Name
+		if len(want) == 0 || want[key] {
+			r := eng.ProveLemma(lem)
+			results = append(results, r)
+			all = append(all, r.Obls...)
+		}
+	}
 	solveAll(all, *timeout, 14, true)
 	for _, r := range results {
 		fmt.Printf("== %s: %d obligations, %d paths", r.Key, len(r.Obls), r.Paths)
@@ -112,7 +120,7 @@ func cmdVerify(args []string) {
 			}
 			status := "DISCHARGED"
 			if obs[0].Kind == "cover" {
-				if cnt["unsat"] > 0 {
+				if cnt["unsat"] == len(obs) {
 					status = "VACUOUS"
 				} else {
 					status = "covered"
@@ -123,7 +131,7 @@ func cmdVerify(args []string) {
 			fmt.Printf("   %-70s %-10s n=%d %v %.2fs\n", n, status, len(obs), cnt, secs)
 			if *dump != "" && strings.Contains(n, *dump) {
 				for i, ob := range obs {
-					if ob.Status != "unsat" || obs[0].Kind == "cover" {
+					if ob.Status != "unsat" || obs[0].Kind == "cover" || *dump == n {
 						fn := fmt.Sprintf("/tmp/govc_dump_%d.smt2", i)
 						os.WriteFile(fn, []byte(ob.Script), 0o644)
 						fmt.Printf("      dumped %s (%s) trace=%s\n", fn, ob.Status, ob.Trace)
